@@ -11,6 +11,8 @@ with its own formulas (scipy.stats, quadrature): additivity / linearity on natur
 (a*b)/b = a, powers = repeated products, conversion round trips, moment matching of projections,
 normalisation / CDF / mean / variance of the reported densities."""
 import json
+import os
+import sys
 import math
 
 import numpy as np
@@ -547,7 +549,7 @@ def fill_tables(rec, prog, regs, first, shape, i):
                         except (ValueError, OverflowError):
                             pass
             continue
-        if op not in ("logpdf", "factor", "cdf", "valuefor", "transform", "inverse", "mean"):
+        if op not in ("logpdf", "factor", "cdf", "valuefor", "transform", "inverse", "mean", "variance"):
             continue
         m = regs[st["a"]]
         if not is_msg(m):
@@ -563,6 +565,14 @@ def fill_tables(rec, prog, regs, first, shape, i):
             mu, sg = ref_mu_sigma(b, shape, i)
             if op == "mean":
                 ref_inverse(rec, trs, mu)
+                continue
+            if op == "variance":
+                # the points at which the Jacobians are taken: the running mean, transform by transform
+                x = mu
+                for t in trs:
+                    x = ref_inv(rec, t, x)
+                    if t["t"] == "phi":
+                        rec.normpdf(rec.ndtri(x))
                 continue
             x = elem(st["x"], shape, i)
             if op in ("logpdf", "factor", "transform"):
@@ -1325,6 +1335,8 @@ def one_case(ctx, case, label="gen", budget=None):
                         continue  # densities of gamma / beta are not modelled (oracle only)
                     got = elem(val, shape, i)
                     want = h2f(mo["v"])
+                    if os.environ.get("C17_DBG") and st["op"] == "variance" and isinstance(src, TransformedMessage):
+                        print("DBG variance", [canon_tr(t)["t"] for t in src.transforms], got, want, scale, file=sys.stderr)
                     if not close(got, want, rel=1e-8, scale=max(1.0, scale if st["op"] in ("mean", "variance") else 1.0)):
                         ctx.disagree("C17.query:" + st["op"], case, {"reg": r_i, "elem": i, "impl": got}, h2f(mo["v"]))
                     else:
@@ -1613,8 +1625,7 @@ def gen_algebra(rng, want_density):
         push({"op": "natural", "a": a})
         push({"op": "valid", "a": a})
         push({"op": "mean", "a": a})
-        if not isinstance(ra, TransformedMessage):
-            push({"op": "variance", "a": a})
+        push({"op": "variance", "a": a})
         x = point_in_support(rng, ra, None)
         if x is None:
             continue
